@@ -340,42 +340,57 @@ func runC08(p *Prog, r *Report, tier string) {
 	r.Check(okOne, "R-VALUE.one-write", fnKey(sender)+": exactly one Write of the whole message", p.pos(sender.Pos()), "one Write, outside any loop, of CreateIPFIXMsg's result", whyW, true)
 	if okOne {
 		w := writes[0]
-		okRet := false
-		eachInstr(sender, func(in ssa.Instruction) {
-			rt, ok := in.(*ssa.Return)
-			if !ok {
+		// on every path that returns a nil error the count returned is Write's own first result, the path knows Write's
+		// error to be nil and the count to equal len(message) - decided on enumerated paths, so that the Write and its
+		// two tests may sit in a helper that was spliced back (its results then arrive merged at the return)
+		okRet := true
+		nSucc := 0
+		var ex0, ex1 *ssa.Extract
+		for _, e := range extractOf(w, 0) {
+			ex0 = e
+		}
+		for _, e := range extractOf(w, 1) {
+			ex1 = e
+		}
+		wk := &absWalker{MaxPaths: 8192}
+		wk.OnEnd = func(st *absState, last ssa.Instruction) {
+			rt, ok := last.(*ssa.Return)
+			if !ok || len(rt.Results) < 2 {
 				return
 			}
-			isNil, has := retErrNil(rt)
-			if !has || !isNil {
+			isNil, known := st.nilness(rt.Results[len(rt.Results)-1])
+			if known && !isNil {
 				return
 			}
-			ex, ok := rt.Results[0].(*ssa.Extract)
-			if !ok || ex.Tuple != ssa.Value(w) || ex.Index != 0 {
+			if !known || ex0 == nil || ex1 == nil {
 				okRet = false
 				return
 			}
-			eqLen, errNil := false, false
-			for _, fct := range blockFacts(in.Block()) {
-				if fct.Op == token.EQL {
-					for _, pr := range [][2]ssa.Value{{fct.X, fct.Y}, {fct.Y, fct.X}} {
-						if pr[0] == ssa.Value(ex) {
-							if lc, ok := pr[1].(*ssa.Call); ok {
-								if b, ok := lc.Call.Value.(*ssa.Builtin); ok && b.Name() == "len" && sameValue(lc.Call.Args[0], w.Call.Args[0]) {
-									eqLen = true
-								}
-							}
-						}
-					}
-					if cst, ok := fct.Y.(*ssa.Const); ok && cst.IsNil() {
-						if e2, ok := fct.X.(*ssa.Extract); ok && e2.Tuple == ssa.Value(w) {
-							errNil = true
-						}
-					}
+			nSucc++
+			if st.resolve(rt.Results[0]) != ssa.Value(ex0) {
+				okRet = false
+				return
+			}
+			errNil := false
+			if v, ok := st.bools["nil:"+st.key(ex1)]; ok && v {
+				errNil = true
+			}
+			eqLen := false
+			lk := "len(" + st.key(w.Call.Args[0]) + ")"
+			ck := st.key(ex0)
+			for _, rel := range st.rels {
+				if rel == ck+"+0 == "+lk+"+0" || rel == lk+"+0 == "+ck+"+0" {
+					eqLen = true
 				}
 			}
-			okRet = eqLen && errNil
-		})
+			if !errNil || !eqLen {
+				okRet = false
+			}
+		}
+		if len(sender.Blocks) > 0 {
+			wk.walk(newAbsState(), sender.Blocks[0], 0)
+		}
+		okRet = okRet && nSucc > 0 && !wk.Overflow && !wk.Looped
 		r.Check(okRet, "R-VALUE.byte-count", fnKey(sender)+": success return value", p.pos(sender.Pos()), "Write's count, on the edge err == nil && count == len(message)",
 			"a success return does not report Write's own byte count under 'no error and complete write'", true)
 	}
